@@ -88,8 +88,7 @@ theorem cancel_enabled (st : State) (w : Nat) (x : WSt) (hx : st.ws[w]? = some x
 /-! ### the Query loop -/
 
 /-- **The loop answers** over real partitions: with whatever the successive waits bring (events, wake-ups that bring
-nothing the query selects, time-outs), the loop of `Querier.Query` ends within `scriptMeasure + 1` iterations.
-Partial: this is about cursors over at least one partition; for the empty cursor it is false (`cex_empty_cursor_spins`). -/
+nothing the query selects, time-outs), the loop of `Querier.Query` ends within `scriptMeasure + 1` iterations. -/
 theorem query_answers_partial (wt lim limit : Nat) (s : Script) (acc : List Nat) :
     queryLoop scriptCur wt lim (scriptMeasure s + 1) limit s acc ≠ .outOfFuel :=
   queryLoop_script_terminates wt lim _ limit s acc (Nat.lt_succ_self _)
@@ -97,30 +96,46 @@ theorem query_answers_partial (wt lim limit : Nat) (s : Script) (acc : List Nat)
 /-- the cursor `GetOrCreate` returns when no partition matches, as the source defines it now -/
 def emptyCurNow : Cur Unit := emptyCur Generated.C11.emptyCursorWaitReturnsAtOnce
 
-/-- **F11**: a waiting query (`WaitTimeout > 0`, `Limit > 0`) over no partition never leaves the loop: `Get` is EOF,
-`WaitNewData` returns nil at once, the loop reads again — for every amount of fuel. -/
-theorem cex_empty_cursor_spins (wt lim : Nat) (hw : 0 < wt) (hl : 0 < lim) :
-    ∀ fuel, queryLoop emptyCurNow wt lim fuel lim () [] = .outOfFuel := by
-  have hfact : Generated.C11.emptyCursorWaitReturnsAtOnce = true := by decide
-  unfold emptyCurNow; rw [hfact]
-  exact queryLoop_empty_spins lim wt hl hw
+/-- **F11 repaired** (2ae8d4c; formerly `cex_empty_cursor_spins`): `emptyCursor.WaitNewData` blocks until the wait
+context ends and reports that, so a query over no partition — waiting or not, any limit — leaves the loop in its
+**first iteration** with an empty answer: `Get` is EOF, the wait reports the timeout, the loop breaks. Fuel bound: 1. -/
+theorem query_answers_empty_cursor (wt lim : Nat) :
+    ∀ fuel, 0 < fuel → queryLoop emptyCurNow wt lim fuel lim () [] = .ok [] := by
+  have hfact : Generated.C11.emptyCursorWaitReturnsAtOnce = false := by decide
+  have _hblocks : Generated.C11.emptyCursorWaitBlocksUntilCtxEnds = true := by decide
+  intro fuel hf
+  cases fuel with
+  | zero => omega
+  | succ f =>
+    unfold queryLoop
+    by_cases h : lim = 0
+    · simp [h]
+    · have hg : emptyCurNow.get () = (none, ()) := rfl
+      have hw : emptyCurNow.wait () = (.timeout, ()) := by
+        simp [emptyCurNow, emptyCur, hfact]
+      simp only [h, if_false, hg, hw]
+      split <;> rfl
 
-/-- the full statement for the Query loop: every waiting query answers. **False as the code is** (F11). -/
+/-- what the loop did before the repair, kept as a statement about the model's other branch: with a `WaitNewData`
+that returns nil at once, a waiting query over no partition has no answer for any amount of fuel -/
+theorem unrepaired_empty_cursor_would_spin (wt lim : Nat) (hw : 0 < wt) (hl : 0 < lim) :
+    ∀ fuel, queryLoop (emptyCur true) wt lim fuel lim () [] = .outOfFuel :=
+  queryLoop_empty_spins lim wt hl hw
+
+/-- the full statement for the Query loop: every query answers — over real partitions and over none. -/
 def C11_query_full : Prop :=
   (∀ wt lim limit (s : Script) acc, ∃ fuel, queryLoop scriptCur wt lim fuel limit s acc ≠ .outOfFuel) ∧
-  (∀ wt lim, 0 < wt → 0 < lim → ∃ fuel, queryLoop emptyCurNow wt lim fuel lim () [] ≠ .outOfFuel)
+  (∀ wt lim, ∃ fuel, queryLoop emptyCurNow wt lim fuel lim () [] ≠ .outOfFuel)
 
-theorem c11_query_full_false : ¬ C11_query_full := by
-  intro h
-  obtain ⟨fuel, hf⟩ := h.2 1 1 (by omega) (by omega)
-  exact hf (cex_empty_cursor_spins 1 1 (by omega) (by omega) fuel)
-
-/-- without a wait timeout the empty cursor answers at once (the control of the F11 witness) -/
-theorem empty_cursor_no_wait_answers (lim : Nat) : queryLoop emptyCurNow 0 lim 1 lim () [] = .ok [] := by
-  unfold queryLoop
-  by_cases h : lim = 0
-  · simp [h]
-  · simp [h, emptyCurNow, emptyCur]
+/-- **Holds** since the repair of F11 (with explicit fuel: `scriptMeasure + 1`, resp. 1). -/
+theorem query_answers : C11_query_full := by
+  constructor
+  · intro wt lim limit s acc
+    exact ⟨scriptMeasure s + 1, query_answers_partial wt lim limit s acc⟩
+  · intro wt lim
+    refine ⟨1, ?_⟩
+    rw [query_answers_empty_cursor wt lim 1 (by omega)]
+    intro h; cases h
 
 /-! ### non-vacuity and the behaviours the harness measures, as kernel-evaluated runs -/
 
@@ -148,6 +163,7 @@ fresh timeout and then returns empty -/
 example : queryLoop scriptCur 5 10 10 10 ([], [some [7]]) [] = .ok [7] := by decide
 example : queryLoop scriptCur 5 10 10 10 ([], [some [], none]) [] = .ok [] := by decide
 example : queryLoop scriptCur 5 10 10 10 ([1, 2], [some [3]]) [] = .ok [1, 2] := by decide
-example : queryLoop emptyCurNow 1 10 40 10 () [] = .outOfFuel := by decide
+example : queryLoop emptyCurNow 1 10 40 10 () [] = .ok [] := by decide
+example : queryLoop (emptyCur true) 1 10 40 10 () [] = .outOfFuel := by decide
 
 end Logrange.Props.C11
